@@ -3,7 +3,7 @@
 // the token "@@"):
 //
 //	B <mode> <program tokens> @@ <js>     run the instrumented program, print "<completion> | <events>"
-//	                                      mode = F|S|G (function / script / generator) + o|i (fatal = stack
+//	                                      mode = F|S|G|A (function / script / generator / async function) + o|i (fatal = stack
 //	                                      overflow / interrupt), e.g. "Fo"
 //	K <program tokens> @@ <js>            dump the bytecode of function f: "name ops;name ops;..."
 //	S <site> <n> <k> <fail> <rm>          built-in iteration site driven by an instrumented iterator
@@ -137,6 +137,24 @@ func runProgram(mode string, js string) string {
 		v, err = x.r.RunString(js + "\nf()")
 	case 'G':
 		v, err = x.r.RunString(js + "\ndrive()")
+	case 'A':
+		// async function: every `await` suspends; goja drains the job queue before RunString returns
+		_, err = x.r.RunString(js + "\nvar __r = ['P']; f().then(function(v){ __r = ['R', v]; }, function(e){ __r = ['T', e]; });")
+		if err == nil {
+			st, _ := x.r.RunString("__r[0]")
+			val, _ := x.r.RunString("__r[1]")
+			switch st.String() {
+			case "R":
+				v = val
+			case "T":
+				close(done)
+				x.r.ClearInterrupt()
+				return "T:" + x.canonVal(val) + " | " + strings.Join(x.log, " ")
+			default:
+				close(done)
+				return "PENDING | " + strings.Join(x.log, " ")
+			}
+		}
 	default:
 		v, err = x.r.RunString(js)
 	}
